@@ -251,6 +251,93 @@ def check_accessor(run, f, rule='R8', extra_objs=(), skip_self=False):
                                       'per-element branch passes %s' % (_kw(kw1), k1.name, _kw(kw2)), f=f, node=st)
                     else:
                         run.holds(rule, subj, 'branch agreement', 'both branches call %s with %s' % (k1.name, _kw(kw1) or 'no options'), f=f, node=st)
+    # (iv) element agreement: the single-value branch returns E(self.A) and the per-element branch W([E'(x) for x in self.A]): E' is E with
+    # the element in place of the whole value (same subscripts, same callee, same arguments)
+    for st in [x for x in own_walk(f.node) if isinstance(x, ast.If)]:
+        if isinstance(st, ast.If):
+            arms, els = if_chain(st)
+            if not (len(arms) == 1 and els is not None and matches('len(%s) == 1' % s, canon(fi, arms[0][0])) is not None):
+                continue
+            r1 = [x for x in arms[0][1] if isinstance(x, ast.Return) and x.value is not None]
+            r2 = [x for x in els if isinstance(x, ast.Return) and x.value is not None]
+            if len(r1) != 1 or len(r2) != 1 or len(arms[0][1]) != 1 or len(els) != 1:
+                continue
+            e1 = canon(fi, r1[0].value, inline=False)
+            e2 = canon(fi, r2[0].value, inline=False)
+            comp = None
+            for y in ast.walk(e2):
+                if isinstance(y, (ast.ListComp, ast.GeneratorExp)) and len(y.generators) == 1 and isinstance(y.generators[0].target, ast.Name):
+                    comp = y
+                    break
+            if comp is None:
+                continue
+            g = comp.generators[0]
+            xv = g.target.id
+            it = g.iter
+            whole = None
+            for cand in ('%s.A' % s, '%s._A' % s, '%s.data' % s, s):
+                if matches(cand, it) is not None:
+                    whole = cand
+            if whole is None:
+                continue
+
+            class Sub(ast.NodeTransformer):
+                def visit_Attribute(self2, n_):
+                    if whole != s and isinstance(n_.value, ast.Name) and n_.value.id == s and n_.attr in ('A', '_A'):
+                        return ast.Name(id=xv, ctx=ast.Load())
+                    return self2.generic_visit(n_)
+
+                def visit_Name(self2, n_):
+                    if whole == s and n_.id == s:
+                        return ast.Name(id=xv, ctx=ast.Load())
+                    return n_
+            import copy as _cp
+            # the part of e1 that corresponds to the comprehension in e2: e2 = W(comp) and e1 = W(E) with the same wrapper W, or W is just
+            # the stacking call array / vstack / list of the per-element branch
+            def locate(a, b):
+                if b is comp:
+                    return a
+                if isinstance(b, ast.Call) and isinstance(b.func, ast.Name) and b.func.id in ('array', 'vstack', 'list', 'asarray', 'stack') and b.args and b.args[0] is comp:
+                    return a
+                if type(a) is not type(b):
+                    return None
+                hit = None
+                for (fa, va), (fb, vb) in zip(ast.iter_fields(a), ast.iter_fields(b)):
+                    if isinstance(vb, ast.AST) and isinstance(va, ast.AST):
+                        if any(z is comp for z in ast.walk(vb)):
+                            hit = locate(va, vb)
+                        elif ast.dump(va) != ast.dump(vb):
+                            return None
+                    elif isinstance(vb, list) and isinstance(va, list):
+                        if len(va) != len(vb):
+                            return None
+                        for xa, xb in zip(va, vb):
+                            if isinstance(xb, ast.AST) and any(z is comp for z in ast.walk(xb)):
+                                hit = locate(xa, xb)
+                            elif isinstance(xb, ast.AST) and ast.dump(xa) != ast.dump(xb):
+                                return None
+                return hit
+            e1 = locate(e1, e2)
+            if e1 is None:
+                continue
+            e1x = Sub().visit(_cp.deepcopy(e1))
+            if not any(isinstance(y, ast.Name) and y.id == xv for y in ast.walk(e1x)):
+                continue
+            n_ob += 1
+            same = ast.dump(e1x) == ast.dump(comp.elt)
+            if not same:
+                # wrappers of the single value that the per-element branch applies to the stacked result instead (e.g. a trailing .T) are
+                # not compared here: only plain subscript / call forms
+                OKT = (ast.Subscript, ast.Call, ast.Name, ast.Attribute, ast.Constant, ast.Tuple, ast.Slice, ast.keyword, ast.Load, ast.UnaryOp, ast.USub,
+                       ast.BinOp, ast.Mult, ast.Add, ast.Sub, ast.Div, ast.MatMult)
+                plain = all(isinstance(z, OKT) for z in ast.walk(e1x)) and all(isinstance(z, OKT) for z in ast.walk(comp.elt))
+                if plain and type(e1x) is type(comp.elt):
+                    run.violation(rule, subj, 'element agreement', 'for one value the accessor returns %s, for several values it collects %s of each element: '
+                                  'element i of a multi-valued result is not what the accessor returns for the single value X[i]' % (src(e1, 40), src(comp.elt, 40)), f=f, node=st)
+                else:
+                    n_ob -= 1
+            else:
+                run.holds(rule, subj, 'element agreement', 'the per-element branch applies %s to every element' % src(e1, 40), f=f, node=st)
     if n_ob == 0:
         run.holds(rule, subj, 'accessor', 'no single-or-list value is used; elements are taken from self / self.data', f=f,
                   nontrivial=False)
